@@ -111,6 +111,13 @@ Theorem C39_source_facts :
      what lets [cstep] treat MReq / MResp as immutable messages *)
   gen_control_request_encode_returns_fresh_buffer = true /\
   gen_control_response_encode_returns_fresh_buffer = true /\
-  gen_protocol_package_has_no_buffer_pool = true.
+  gen_protocol_package_has_no_buffer_pool = true /\
+  (* the id space is never restarted (no event of [cstep], and no sleep / wake
+     cycle of the agent, lowers c_next or empties the maps) *)
+  gen_control_counter_only_incremented = true /\ gen_control_maps_created_once = true /\
+  (* the agent's own replies all come from the request handler, and go to the
+     requester's own link only *)
+  gen_all_own_replies_come_from_the_request_handler = true /\
+  gen_own_reply_sent_to_the_requester_link_only = true.
 Proof. repeat split; reflexivity. Qed.
 Print Assumptions C39_source_facts.
